@@ -252,7 +252,14 @@ def gen_handler(d, fname=None):
 
     tvals = ", ".join("a%d.tval()" % i for i in range(len(args)))
     out = []
+    # other attributes and doc comments around the `scpi` attribute (the macro must find and remove only its own)
+    if d["id"] % 4 == 1:
+        out.append("        /// Handler of `%s` (a doc comment is an attribute, too)." % (d["cmd"].decode("utf-8", "replace") if isinstance(d["cmd"], bytes) else d["cmd"]).replace("`", "'"))
+    if d["id"] % 4 == 2:
+        out.append("        #[allow(clippy::too_many_arguments, unused_variables)]")
     out.append("        #[scpi(cmd = %s)]" % rust_str(d["cmd"]))
+    if d["id"] % 4 >= 2:
+        out.append("        #[inline]")
     out.append("        pub %sfn %s%s(&mut self%s) -> Result<%s, microscpi::Error> {"
                % ("async " if d["is_async"] else "", fname or ("h%d" % d["id"]), generics, params, rty))
     out.append("            if self.quiet {")
